@@ -37,9 +37,10 @@ def attribute(h, fc):
         return []
     if kani.is_unwind_failure(fc):
         return []
-    # built-in check / debug_assert in the real code = a panic of the real code
-    if "C01" in h["props"]:
-        return ["C01"]
+    # built-in check / debug_assert! of the real code = a panic of the real code in the debug build. That is C01's
+    # subject, but what makes the assertion fail usually also breaks the property the harness is about in the
+    # release build (e.g. add_token's ordering assertion <-> C02), so the counterexample counts against every
+    # property of the harness; it is reported only if the native replay shows a violation of THAT property.
     return list(h["props"])
 
 
